@@ -15,7 +15,7 @@ import shutil
 import vf
 
 FILES = {"internal/telemetry/zz_verif_telemetry_test.go": "telemetry/zz_verif_telemetry_test.go"}
-SAFETY = ["StreamWellFormed", "ReceiverAlignment", "FollowupSameConn", "EmitNeverWaits",
+SAFETY = ["StreamWellFormed", "ReceiverAlignment", "FollowupSameConn", "EmitNeverWaits", "EmitNeverWaitsAfterClose",
           "AlignmentLostOnlyAfterFault", "NoRecordPanic", "QueueOrdered", "DropsOrdered"]
 
 
@@ -34,6 +34,10 @@ def split_runs(lines):
             runs.append(cur)
         elif ln.startswith('{"ev":"Aborted"'):
             raise vf.Infra("driver aborted a run: " + ln)
+        elif ln.startswith('{"ev":"Stopped"'):
+            # the driver recorded emitters that never returned and stopped after that run (their goroutines
+            # are still blocked inside the client); the recorded run itself is judged like any other
+            cur = None
         elif cur is not None:
             cur.append(ln)
     return runs
@@ -286,14 +290,17 @@ def run(ctx):
         for g in (1, 4, 16):
             batches.append(("gomaxprocs%d" % g, {"VF_RUNS": 250, "VF_FIRST": 10000 * g, "VF_GOMAXPROCS": g}))
     runs = []
+    stopped = False
     for lab, env in batches:
         outp = os.path.join(ctx.tmp, "trace-%s.ndjson" % lab)
         env = dict(env, VF_OUT=outp, VF_SEED=ctx.seed)
         if os.environ.get("C28_GOMAXPROCS"):   # development knob: force one GOMAXPROCS for every run
             env["VF_GOMAXPROCS"] = os.environ["C28_GOMAXPROCS"]
         vf.run_driver(ctx, binp, "TestVerifTelemetryRun", env=env, timeout=1500)
-        runs += split_runs(vf.read_lines(outp))
-    if len(runs) < nruns:
+        lines = vf.read_lines(outp)
+        stopped = stopped or any(ln.startswith('{"ev":"Stopped"') for ln in lines[-3:])
+        runs += split_runs(lines)
+    if len(runs) < nruns and not stopped:
         raise vf.Infra("driver produced %d of %d runs" % (len(runs), nruns))
 
     # ------------------------------------------------------------------ V
